@@ -186,7 +186,8 @@ PROPS["C14"] = {
     "level": "exploration",
     "rule": ("TestC14Exhaustive: every list of 1..3 locations over hosts {a.test,b.test} x prefixes {/a,/a/b,/b} (32 shapes -> 33 824 configs) x every server name list x 3 request hosts x 6 request URIs "
              "(thorough: + every list of 4 locations over 16 shapes); TestC14Random: up to 8 locations, duplicate names, 5 hosts, 7 prefixes, unknown names. Oracle = reference matcher (result matches and is of the best class present; nil iff nothing matches; unlisted never used). "
-             "Non-trivial = >=2 matching locations of >=2 classes, or nothing listed matches while an unlisted location would. Exhaustive lookups are distinct by construction and counted by the test."),
+             "Non-trivial = >=2 matching locations of >=2 classes, or nothing listed matches while an unlisted location would. Exhaustive lookups are distinct by construction and counted by the test. "
+             "TestC14Config: 1-6 location configuration entries (hosts in any case, prefixes including /) loaded with location.Reset and looked up through the package registry as the proxy does; same reference."),
     "assumptions": ["the exported NewLocations(...).Get is the lookup the proxy uses (location.Get on the default list)",
                     "TestC14Server (real sockets): 1-5 locations, each adding a request header naming itself, two servers listing subsets of them, 3-10 requests: the harness upstream's log tells which location handled a request (must be listed, matching, of the best class); with no match the client gets 5xx and the upstream sees nothing"],
     "exhaustive_part": "all configurations of up to 3 locations over the stated universe",
@@ -194,6 +195,7 @@ PROPS["C14"] = {
         {"engine": "netw", "test": "TestC14Server", "quick": {"shards": 8, "checks": 150, "timeout": 500}, "thorough": {"shards": 16, "checks": 6000, "timeout": 3400}},
         {"engine": "unit", "test": "TestC14Exhaustive", "rapid": False, "quick": {"shards": 1, "timeout": 500}, "thorough": {"shards": 1, "timeout": 3400}},
         {"engine": "unit", "test": "TestC14Random", "quick": {"shards": 4, "checks": 20000, "timeout": 500}, "thorough": {"shards": 16, "checks": 300000, "timeout": 3400}},
+        {"engine": "unit", "test": "TestC14Config", "quick": {"shards": 4, "checks": 5000, "timeout": 500}, "thorough": {"shards": 16, "checks": 100000, "timeout": 3400}},
     ],
 }
 PROPS["C17"] = {
